@@ -4,15 +4,15 @@
 (* action formulas, and the scenario emitter used with `tlc -simulate`.     *)
 EXTENDS NNS, Json
 
-VARIABLES g, api, steps, hist
-mcvars == <<now, roots, ns, supply, bal, idx, rec, soa, ev, g, api, steps, hist>>
+VARIABLES g, steps, hist
+mcvars == <<now, roots, ns, supply, bal, idx, rec, soa, ev, g, steps, hist>>
 
 \* ---- quick: one TLD, a chain of three names (so that a name two levels below its token exists) ----
 Q_Par        == ("t" :> Nil) @@ ("a.t" :> "t") @@ ("b.a.t" :> "a.t") @@ ("c.b.a.t" :> "b.a.t")
 Q_Owners     == {"o1", "o2"}
-Q_SignerSets == {{}, {"o1"}, {"o2"}, {"CMT"}, {"o1", "o2"}}
+Q_SignerSets == {{}, {"o1"}, {"o2"}, {"CMT"}}
 Q_DataOf     == ("A" :> {"1.1.1.1"}) @@ ("CNAME" :> {"a.t", "b.a.t"})
-Q_RTypes     == {"A", "CNAME", "SOA"}
+Q_RTypes     == {"A", "CNAME"}
 
 \* ---- ownership: two TLDs, siblings, a contract owner, the committee as owner, renew bounds ----
 O_Par        == ("t" :> Nil) @@ ("u" :> Nil) @@ ("a.t" :> "t") @@ ("b.t" :> "t") @@ ("b.a.t" :> "a.t")
@@ -33,15 +33,14 @@ S_Par        == ("t" :> Nil) @@ ("u" :> Nil) @@ ("a.t" :> "t") @@ ("b.t" :> "t")
                 @@ ("c.a.t" :> "a.t") @@ ("c.b.a.t" :> "b.a.t") @@ ("d.c.b.a.t" :> "c.b.a.t")
 S_Owners     == {"o1", "o2", "o3", "kc", "CMT"}
 S_SignerSets == {{}, {"o1"}, {"o2"}, {"o3"}, {"CMT"}, {"M1"}, {"X"}, {"ALPHA"}, {"o1", "o2"}, {"o2", "o3"}, {"o1", "CMT"}, {"o1", "o3"}}
-S_DataOf     == ("A" :> {"1.1.1.1", "2.2.2.2", "3.3.3.3"}) @@ ("TXT" :> {"x", "y", "z"}) @@ ("AAAA" :> {"2001:db9::1"})
+S_DataOf     == ("A" :> {"1.1.1.1", "2.2.2.2", "3.3.3.3"}) @@ ("TXT" :> {"x", "y", "z"}) @@ ("AAAA" :> {"2001:470::1"})
                 @@ ("CNAME" :> {"a.t", "b.t", "a.u", "b.a.t", "c.a.t", "c.b.a.t", "d.c.b.a.t"})
 S_RTypes     == {"A", "CNAME", "TXT", "AAAA", "SOA", "BAD"}
 
 CONSTANTS MaxSteps, MaxNow, SimLen
 
-\* (g and api are variables rather than LET definitions: TLC re-evaluates a LET body at every use)
-MCInit == Init /\ g = GInit /\ api = ApiModel(Dev) /\ steps = 0 /\ hist = <<>>
-MCNext == Next /\ g' = GNext(g, ev', now') /\ api' = ApiModel(Dev)' /\ steps' = steps + 1 /\ hist' = <<>>
+MCInit == Init /\ g = GInit /\ steps = 0 /\ hist = <<>>
+MCNext == Next /\ g' = GNext(g, ev', now') /\ steps' = steps + 1 /\ hist' = <<>>
 MCSpec == MCInit /\ [][MCNext]_mcvars
 
 Bounded == steps <= MaxSteps /\ now <= MaxNow
@@ -78,19 +77,25 @@ SimStep ==
   \/ \E n \in SimNames, ty \in One(RTypes), i \in One(Ids) : \E d \in One(DataFor(ty)), S \in SimSigners(n, Nil), v \in SimVia(n, Nil) : SetRecord(S, v, n, ty, i, d)
   \/ \E n \in SimNames, ty \in One(RTypes) : \E S \in SimSigners(n, Nil), v \in SimVia(n, Nil) : DeleteRecords(S, v, n, ty)
 
-SimNext == SimStep /\ g' = GNext(g, ev', now') /\ api' = api /\ steps' = steps + 1 /\ hist' = Append(hist, [ev' EXCEPT !.ntf = <<>>])
+SimNext == SimStep /\ g' = GNext(g, ev', now') /\ steps' = steps + 1 /\ hist' = Append(hist, [ev' EXCEPT !.ntf = <<>>])
 SimSpec == MCInit /\ [][SimNext]_mcvars
 
 EmitScenario == IF Len(hist) = SimLen THEN PrintT("SCEN " \o ToJson([steps |-> hist])) ELSE TRUE
 
-\* ---- the properties as action formulas: g' = reference state after the step, api' = read API after it ----
-P_C10 == [][/\ C10_Supply(g', api') /\ C10_Index(g', api') /\ C10_Avail(g', now', api')
-            /\ C10_RegisterFree(g, ev', now') /\ C10_Renew(g', ev', now')
-            /\ C10_ChainAlive(g', now', api') /\ C10_Announced(g, g', ev')]_mcvars
+\* ---- the properties ----
+\* The predicates that compare the read API after a step with the reference machine after the step are
+\* state predicates of the post-state; TLC checks them as invariants (once per distinct state, and in a
+\* state context where it caches LET definitions - evaluating ApiModel(Dev)' for every generated successor
+\* is 100 times slower).  The predicates that look at the invocation are action formulas.
+Inv_C10 == \A api \in {ApiModel(Dev)} :      \* (\A binds api to a value; a LET body is re-evaluated at every use)
+           /\ C10_Supply(g, api) /\ C10_Index(g, api) /\ C10_Avail(g, now, api) /\ C10_ChainAlive(g, now, api)
+Inv_C12 == \A api \in {ApiModel(Dev)} :
+           /\ C12_Get(g, now, api) /\ C12_GetAll(g, now, api) /\ C12_Resolve(g, now, api) /\ C12_ResolveDot(api)
+           /\ WellFormed(g.rec)
+P_C10 == [][C10_RegisterFree(g, ev', now') /\ C10_Renew(g', ev', now') /\ C10_Announced(g, g', ev')]_mcvars
 P_C11 == [][C11_UnauthorisedInert(g, ev', now')]_mcvars
-P_C12 == [][/\ C12_Lists(g, g') /\ C12_Ops(g, ev', now') /\ C12_Serial(g, ev', now', api')
-            /\ C12_Get(g', now', api') /\ C12_GetAll(g', now', api') /\ C12_Resolve(g', now', api')
-            /\ C12_ResolveDot(api') /\ C12_RegisterConflict(g, ev')]_mcvars
+P_C12 == [][/\ C12_Lists(g, g') /\ C12_Ops(g, ev', now') /\ C12_RegisterConflict(g, ev')
+            /\ C12_Serial(g, ev', now', [soa |-> [n \in NT |-> MSoa(Dev, n)]'])]_mcvars
 
 \* the storage agrees with the reference machine (binding of the two views inside the Spec)
 Inv_Ref == /\ \A n \in Names : g.reg[n] = ns[n]
